@@ -5,6 +5,7 @@ _MODELLED = [
     "pkg/dhcpv6/server.go: NewAddressPool/NewPrefixPool (first 1000 units, bit placement), Allocate, Release",
     "pkg/pppoe/server.go: NewIPPool universe, IPPool.Allocate/Release",
     "pkg/pool/peer.go: generateAvailableIPs, allocateLocal, releaseLocal, Get, Stats on a single-node PeerPool",
+    "pkg/allocator/distributed.go (via Model/DistAlloc.v of C12): Allocate (rollback on Put failure), Release (Delete first), Renew, Get, Stats, AdvanceEpoch, Start/loadAllocations",
     "pkg/nexus/client.go: AllocateIPForSubscriber, allocateFromPool (FNV-1a mod hosts, byte adds, unmasked base), ReleaseSubscriberIP, LookupSubscriberIP",
 ]
 _ASSUME = [
@@ -12,12 +13,13 @@ _ASSUME = [
     "concurrent callers: NOT proved. Validation only: every pool type keeps its state behind one mutex held for the whole exported method (pppoe.IPPool since fix 9686c62); stream 'concurrent' drives real objects from 4-8 goroutines and Coq evaluates the Spec invariant on the final snapshot",
     "universes of dhcp.Pool / LocalPool / PrefixPool (byte additions, uint32 addition, bit placement): NoDup and inside-the-CIDR are checked per generated case inside Coq, and proved for all geometries only for the bitmap, AddressPool and pppoe constructions",
     "nexus client is driven over a harness Store that delivers watch events synchronously and in order (nexus.MemoryStore starts a goroutine per event; a late echo can overwrite a newer cached record - observed once, outside this sequential tie)",
-    "DistributedAllocator / PoolAllocator (store failure oracle) are covered under C12, not here",
+    "DistributedAllocator: stream 'dist' (C05 only) drives the real object in both modes on a harness Store with Put/Delete failure at every call index followed by reload; its Model (Model/DistAlloc.v) and the cited lemmas are the C12 builder's; watch notifications are not delivered in this stream (C12 covers them); lease mode keeps to <= 1 AdvanceEpoch between reloads",
+    "same-subscriber races: stream 'race' (barrier-released rounds, 2-16 callers per fresh subscriber, background writer, GOMAXPROCS >= 8) samples schedules of every mutex-protected pool type; every return value and the final table / statistics / obtainable units are judged by the Spec in Coq",
     "IPv6 geometry of the epoch allocator is not modelled: the code itself is IPv4 only (baseIP = To4())",
 ]
 SPEC = {
     "props": "Props/C01.v",
-    "check_vo": ["Model/PoolCheck.vo"],
+    "check_vo": ["Model/PoolCheck.vo", "Model/DistPoolCheck.vo"],
     "driver": "c01",
     "driver_args": ["-prop", "C01"],
     "driver_timeout": 2400,
